@@ -193,7 +193,7 @@ func drawCase(r *gen.Rand, idx int) (caseDesc, error) {
 		needs := !badAt[i] && d.OptsExt != "" && r.Chance(1, 6)
 		kind := "nacha"
 		if badAt[i] {
-			kind = []string{"garbage", "truncated", "nacha-in-json", "json-in-nacha", "needs-sidecar", "garbage"}[r.Intn(6)]
+			kind = []string{"garbage", "truncated", "nacha-in-json", "json-in-nacha", "needs-sidecar", "garbage", "json-rejected"}[r.Intn(7)]
 			needs = kind == "needs-sidecar"
 		}
 		var opts *ach.ValidateOpts
@@ -215,6 +215,26 @@ func drawCase(r *gen.Rand, idx int) (caseDesc, error) {
 			it = item{Path: place(prefix + nacha[r.Intn(len(nacha))]), Kind: kind, Content: strings.Join(lines[:1+r.Intn(3)], "")}
 		case "nacha-in-json":
 			it = item{Path: place(prefix + jsn[r.Intn(len(jsn))]), Kind: kind, Content: text}
+		case "json-rejected":
+			// well-formed JSON of a file that decodes and is then refused by Create/Validate (FileFromJSONWith returns the
+			// file *and* the error): two entries out of trace-number order, or a mandatory field blanked
+			swapped := false
+			for _, b := range f.Batches {
+				if es := b.GetEntries(); len(es) >= 2 && es[0].TraceNumber != es[1].TraceNumber {
+					es[0], es[1] = es[1], es[0]
+					swapped = true
+					break
+				}
+			}
+			if !swapped && len(f.Batches) > 0 && len(f.Batches[0].GetEntries()) > 0 {
+				f.Batches[0].GetEntries()[0].DFIAccountNumber = ""
+			}
+			bs, _ := json.Marshal(f)
+			it = item{Path: place(prefix + jsn[r.Intn(len(jsn))]), Kind: kind, Content: string(bs)}
+			if g, err := parse(string(bs), ach.AcceptAsJSON, nil); err == nil || g == nil {
+				// not the case this kind is for (accepted after all, or refused before a file existed)
+				it = item{Path: place(prefix + nacha[r.Intn(len(nacha))]), Kind: "garbage", Content: "this is not an ACH file\n"}
+			}
 		case "json-in-nacha":
 			bs, _ := json.Marshal(f)
 			it = item{Path: place(prefix + nacha[r.Intn(len(nacha))]), Kind: kind, Content: string(bs)}
@@ -650,7 +670,7 @@ func stripPaths(s string) string {
 
 func init() {
 	Register("C10", &Oracle{
-		Rule: "directory trees of 0..12 generator files (non-IAT non-ADV, pooled headers/routes, colliding traces) as .ach/.txt/extension-less/upper-case (Nacha) and .json (json.Marshal) plus skipped extensions and side-car ValidateOpts files (harmless ones, and files with an invalid destination readable only through their side-car), flat / chain / bushy directory layouts 0..3 levels deep, SubDirectories on/off, ParseWorkers 1,2,3,default, default or custom acceptor, Conditions none/lines/dollars/both, run over a delaying in-memory fs.FS (per-file Open and Read delays and chunk sizes drawn per repetition; one fifth of the cases repeated 12 times) or a temporary OS directory (incl. empty directories); a quarter of the cases hold 1..4 unparseable accepted files (garbage, truncated, Nacha as .json, JSON as .ach, missing side-car); every call under a 5 s watchdog; distinct = distinct (mode, workers, options, per-file depth/extension/kind); non-trivial = at least one accepted file",
+		Rule: "directory trees of 0..12 generator files (non-IAT non-ADV, pooled headers/routes, colliding traces) as .ach/.txt/extension-less/upper-case (Nacha) and .json (json.Marshal) plus skipped extensions and side-car ValidateOpts files (harmless ones, and files with an invalid destination readable only through their side-car), flat / chain / bushy directory layouts 0..3 levels deep, SubDirectories on/off, ParseWorkers 1,2,3,default, default or custom acceptor, Conditions none/lines/dollars/both, run over a delaying in-memory fs.FS (per-file Open and Read delays and chunk sizes drawn per repetition; one fifth of the cases repeated 12 times) or a temporary OS directory (incl. empty directories); a quarter of the cases hold 1..4 unparseable accepted files (garbage, truncated, Nacha as .json, JSON as .ach, missing side-car, well-formed JSON that FileFromJSONWith decodes and then refuses); every call under a 5 s watchdog; distinct = distinct (mode, workers, options, per-file depth/extension/kind); non-trivial = at least one accepted file",
 		Run:  run,
 	})
 }
